@@ -314,7 +314,7 @@ def main(argv=None) -> int:
         wall_s=round(time.time() - t0, 2),
         violations=len(violations),
     )
-    if a.cells is None and a.scale == 1.0:
+    if a.cells is None and a.scale == 1.0 and core.REPO == "/repo":
         evp = os.path.join(VERIF_DIR, "evidence", f"{prop}.json")
     else:
         evp = os.path.join("/tmp", f"evidence-dev-{prop}.json")
